@@ -244,7 +244,7 @@ def make_rule_case(rng, tabs, preset):
     tab = tabs[preset]
     parents = sorted(p for p in tab if tab[p])
     allcats = sorted(set(w for s in tab.values() for w in s) | set(tab)
-                     | {'xx', 'foo', 'zz9'})
+                     | {'xx', 'foo', 'zz9', 'EMPTY'})
     nodes_expect = []
     spec_tokens = []
     counter = [0]
